@@ -289,6 +289,76 @@ theorem csv_confidence_tainted (t : Tree) (taint : List Lvl) (ck : ConfKey) (r :
     cellSpec t taint ck r (some (l, .conf)) = .raw q := by
   simp [cellSpec, h, hq, confCell, ht]
 
+/-- the known finding, precisely delimited.  `blob_to_df` decides by SUBSTRINGS
+of the column name which columns become pandas categories, and
+`to_csv(float_format='%.4f')` leaves categorical columns alone; so for a finite
+confidence `q` of a level `l` of the hierarchy
+
+* the field is `'%.4f' % q`  ⇔  the column name `f"{readable}_{key}"` contains
+  NONE of `label`, `name`, `alias`, `assignment`
+  ⇔  the readable level name contains none of them (the suffixes
+  `_bootstrapping_probability` / `_avg_correlation` contain none and a word
+  cannot straddle the `_`);
+* the field is the unformatted float  ⇔  the column name contains one of them;
+
+and one of the two always holds.  The first direction is the property, the
+second is the signature of the known finding
+`C15/…/confidence-not-4-decimals/level-name-contains-label-name-alias`. -/
+theorem csv_confidence_formatted_iff (t : Tree) (text : Lvl → String) (ck : ConfKey)
+    (r : Record) (l : Lvl) (lr : LevelRec) (q : Rat)
+    (hl : l ∈ t.hierarchy) (h : r.levels.lookup l = some lr) (hq : lr.conf ck = .val q) :
+    (cellSpec t (taintOf text ck t.hierarchy) ck r (some (l, .conf)) = .fixed4 (fmt4 q) ↔
+      ∀ w ∈ taintWords, strContains (dfConfColumn (text l) ck) w = false) ∧
+    (cellSpec t (taintOf text ck t.hierarchy) ck r (some (l, .conf)) = .raw q ↔
+      ∃ w ∈ taintWords, strContains (dfConfColumn (text l) ck) w = true) ∧
+    ((∀ w ∈ taintWords, strContains (dfConfColumn (text l) ck) w = false) ↔
+      ∀ w ∈ taintWords, strContains (text l) w = false) := by
+  have hcell : cellSpec t (taintOf text ck t.hierarchy) ck r (some (l, .conf)) =
+      confCell ((taintOf text ck t.hierarchy).contains l) (.val q) := by
+    simp [cellSpec, h, hq]
+  have hcat : colIsCategory (dfConfColumn (text l) ck) = true ↔
+      ∃ w ∈ taintWords, strContains (dfConfColumn (text l) ck) w = true := by
+    simp [colIsCategory, List.any_eq_true]
+  have hnot : colIsCategory (dfConfColumn (text l) ck) = false ↔
+      ∀ w ∈ taintWords, strContains (dfConfColumn (text l) ck) w = false := by
+    rw [← Bool.not_eq_true, hcat]
+    simp
+  have hnot' : colIsCategory (dfConfColumn (text l) ck) = false ↔
+      ∀ w ∈ taintWords, strContains (text l) w = false := by
+    rw [colIsCategory_dfConfColumn, ← Bool.not_eq_true, List.any_eq_true]
+    simp
+  rw [hcell]
+  cases hc : colIsCategory (dfConfColumn (text l) ck) with
+  | false =>
+    have ht : (taintOf text ck t.hierarchy).contains l = false := by
+      rw [← Bool.not_eq_true, mem_taintOf]; simp [hc]
+    rw [ht]
+    have hv : confCell false (.val q) = .fixed4 (fmt4 q) := by simp [confCell]
+    refine ⟨⟨fun _ => hnot.1 hc, fun _ => hv⟩, ⟨?_, ?_⟩, ⟨fun _ => hnot'.1 hc, fun _ => hnot.1 hc⟩⟩
+    · intro hraw
+      rw [hv] at hraw
+      cases hraw
+    · intro hex
+      rw [← hcat, hc] at hex
+      cases hex
+  | true =>
+    have ht : (taintOf text ck t.hierarchy).contains l = true := (mem_taintOf _ _ _ _).2 ⟨hl, hc⟩
+    rw [ht]
+    have hv : confCell true (.val q) = .raw q := by simp [confCell]
+    refine ⟨⟨?_, ?_⟩, ⟨fun _ => hcat.1 hc, fun _ => hv⟩, ?_⟩
+    · intro hfix
+      rw [hv] at hfix
+      cases hfix
+    · intro hall
+      rw [← hnot, hc] at hall
+      cases hall
+    · rw [← hnot, ← hnot']
+
+example : colIsCategory (dfConfColumn "class_label" .bootstrappingProbability) = true ∧
+    colIsCategory (dfConfColumn "class" .bootstrappingProbability) = false ∧
+    colIsCategory (dfConfColumn "my assignment" .avgCorrelation) = true ∧
+    strContains "subclass_name" "name" = true ∧ strContains "nam_e" "name" = false := by decide
+
 /-- *"… preceded by comment lines naming the JSON file, the hierarchy …"*:
 the comment block carries the metadata file name and the hierarchy; the
 readable hierarchy line is present exactly when some level has a different
